@@ -164,6 +164,7 @@ func verifyFunctionAliased(l *Loaded, specs *Specs, ct *Contract, localAlias map
 	w.curFn = shortPkg(ct.Pkg) + "." + ct.Name
 	w.topContract = ct
 	w.topFrame = nil
+	w.forgetMark = 0
 	defer func() {
 		if r := recover(); r != nil {
 			if u, ok := r.(unsupportedErr); ok {
@@ -494,7 +495,17 @@ func (o *Obligation) query(w *World) string {
 			}
 		}
 	}
-	b.WriteString(w.sc.prefix(o.Mark))
+	if pre := w.sc.prefix(o.Mark); (len(pre) > sliceThreshold() || (w.forgetMark > 0 && o.Mark > w.forgetMark)) && o.Expect != "sat" {
+		// long function: keep only what is connected to the goal (sound: fewer hypotheses)
+		forget := 0
+		if o.Mark > w.forgetMark {
+			forget = w.forgetMark
+		}
+		b.WriteString(strings.Join(sliceLines(w.sc.lines[:o.Mark], strings.Join(o.Extra, "\n")+"\n"+o.Goal.S, forget), "\n"))
+		o.Sliced = true
+	} else {
+		b.WriteString(pre)
+	}
 	b.WriteByte('\n')
 	for _, ln := range o.Extra {
 		b.WriteString(ln)
